@@ -35,6 +35,34 @@ pub struct Cfg {
     /// (then every ceremony runs with userVerification discouraged)
     #[serde(default)]
     pub uv_cap: u8,
+    /// Arc wrappers only: another task holds the store's lock when the registration starts and releases it once the
+    /// ceremony cannot get any further (the capability must still be the store's own)
+    #[serde(default)]
+    pub contended: bool,
+}
+
+type Acquire = Box<dyn Fn() -> Box<dyn std::any::Any>>;
+
+/// run a ceremony, optionally while another party holds the store lock for as long as the ceremony can make progress
+fn run_held<T>(fut: impl std::future::Future<Output = T>, acquire: Option<&Acquire>) -> Result<T, String> {
+    let Some(acquire) = acquire else { return Ok(block_on(fut)) };
+    let guard = acquire();
+    let mut t = crate::rt::Task::new(fut);
+    for _ in 0..50 {
+        if t.poll() || !t.is_runnable() {
+            break;
+        }
+    }
+    drop(guard);
+    let mut n = 0;
+    while !t.is_done() {
+        if n > 5000 {
+            return Err("the ceremony never completes after the store lock was released".into());
+        }
+        t.poll();
+        n += 1;
+    }
+    t.output.take().ok_or_else(|| "no output".to_string())
 }
 
 fn mapped_rk(resident_key: u8, require: bool, supports_rk: bool) -> bool {
@@ -53,15 +81,28 @@ pub fn check(ctx: &mut Ctx, c: &Cfg) -> Result<(), String> {
     ctx.nontrivial(c);
     let store = RefStore::new(c.cap);
     match c.wrap % 5 {
-        0 => check_with(ctx, c, store.clone(), store),
-        1 => check_with(ctx, c, Mutex::new(store.clone()), store),
-        2 => check_with(ctx, c, RwLock::new(store.clone()), store),
-        3 => check_with(ctx, c, Arc::new(Mutex::new(store.clone())), store),
-        _ => check_with(ctx, c, Arc::new(RwLock::new(store.clone())), store),
+        0 => check_with(ctx, c, store.clone(), store, None),
+        1 => check_with(ctx, c, Mutex::new(store.clone()), store, None),
+        2 => check_with(ctx, c, RwLock::new(store.clone()), store, None),
+        3 => {
+            let arc = Arc::new(Mutex::new(store.clone()));
+            let a2 = arc.clone();
+            let acquire: Acquire = Box::new(move || Box::new(block_on(a2.clone().lock_owned())) as Box<dyn std::any::Any>);
+            check_with(ctx, c, arc, store, c.contended.then_some(acquire))
+        }
+        _ => {
+            let arc = Arc::new(RwLock::new(store.clone()));
+            let a2 = arc.clone();
+            let acquire: Acquire = Box::new(move || Box::new(block_on(a2.clone().write_owned())) as Box<dyn std::any::Any>);
+            check_with(ctx, c, arc, store, c.contended.then_some(acquire))
+        }
     }
 }
 
-fn check_with<S: passkey_authenticator::CredentialStore<PasskeyItem = passkey_types::Passkey> + Send + Sync>(ctx: &mut Ctx, c: &Cfg, wrapped: S, store: RefStore) -> Result<(), String> {
+fn check_with<S: passkey_authenticator::CredentialStore<PasskeyItem = passkey_types::Passkey> + Send + Sync>(ctx: &mut Ctx, c: &Cfg, wrapped: S, store: RefStore, acquire: Option<Acquire>) -> Result<(), String> {
+    if acquire.is_some() {
+        ctx.class("registration while another task holds the store lock");
+    }
     // user-verification capability: when it is not configured every ceremony runs with userVerification discouraged
     let uv_ok = c.uv_cap % 3 == 0;
     let base_script = || UvScript { verification_enabled: [Some(true), Some(false), None][c.uv_cap as usize % 3], outcome: Ok((true, uv_ok)), ..UvScript::verified() };
@@ -97,7 +138,7 @@ fn check_with<S: passkey_authenticator::CredentialStore<PasskeyItem = passkey_ty
             _ => Some(AuthenticationExtensionsClientInputs { cred_props: Some(true), prf: prf_in, ..Default::default() }),
         };
         let req = cer::creation_options(site.rp, b"c11 challenge", b"c11-user-handle", "user", &[-7], None, sel, ext);
-        let res = block_on(client.register(site.origin(), req, DefaultClientData));
+        let res = run_held(client.register(site.origin(), req, DefaultClientData), acquire.as_ref())?;
         let refused_expected = rk && c.cap == Disc::OnlyNonDiscoverable;
         let creds = store.creds();
         match res {
@@ -154,7 +195,14 @@ fn check_with<S: passkey_authenticator::CredentialStore<PasskeyItem = passkey_ty
                     // preferred, discouraged (the validation step then only reports presence), required
                     uv_handle.set(if round == 2 || !uv_ok { UvScript { outcome: Ok((true, false)), ..base_script() } } else { base_script() });
                     let req = cer::request_options(site.rp, b"c11 challenge 2", Some(vec![cer::descriptor(&cred.raw_id)]), cer::uv_req(if uv_ok { round } else { 2 }), None);
-                    let a = block_on(client.authenticate(site.origin(), req, DefaultClientData)).map_err(|e| format!("assertion #{round} with the new credential failed: {e:?}"))?;
+                    let a = match block_on(client.authenticate(site.origin(), req, DefaultClientData)) {
+                        Ok(a) => a,
+                        Err(_) => {
+                            // the statement speaks about what an assertion returns, not about when it succeeds
+                            ctx.measure("follow-up assertion failed (not judged)", 1);
+                            break;
+                        }
+                    };
                     let stored_now = store.creds().first().map(|c| c.user_handle.is_some()).unwrap_or(false);
                     if stored_now != discoverable {
                         return Err(format!("after assertion #{round} the stored credential's user handle present = {stored_now}, it was {discoverable} after registration"));
@@ -165,6 +213,20 @@ fn check_with<S: passkey_authenticator::CredentialStore<PasskeyItem = passkey_ty
                     if discoverable && a.response.user_handle.map(|b| b.to_vec()) != Some(b"c11-user-handle".to_vec()) {
                         return Err(format!("assertion #{round} returned a different user handle than stored"));
                     }
+                }
+                // a second credential of the RP, and an allow list that names both: whichever is used, the user handle
+                // returned is the one that credential stores
+                let sibling = crate::model::util::make_passkey(88, site.effective, b"c11-sibling-credential", Some(b"c11-sibling-handle"), Some(4), None);
+                store.0.lock().unwrap().creds.push(sibling.clone());
+                uv_handle.set(if uv_ok { base_script() } else { UvScript { outcome: Ok((true, false)), ..base_script() } });
+                let req = cer::request_options(site.rp, b"c11 challenge 3", Some(vec![cer::descriptor(&cred.raw_id), cer::descriptor(&sibling.credential_id)]), cer::uv_req(if uv_ok { 1 } else { 2 }), None);
+                if let Ok(a) = block_on(client.authenticate(site.origin(), req, DefaultClientData)) {
+                    let used = store.creds().into_iter().find(|p| p.credential_id.as_slice() == a.raw_id.as_slice()).ok_or("assertion with an unknown credential")?;
+                    let stored = used.user_handle.as_ref().map(|b| b.to_vec());
+                    if a.response.user_handle.as_ref().map(|b| b.to_vec()) != stored {
+                        return Err(format!("allow list naming two held credentials: the assertion returned user handle present = {}, the credential used stores one = {}", a.response.user_handle.is_some(), stored.is_some()));
+                    }
+                    ctx.class("assertion with an allow list naming two held credentials");
                 }
             }
         }
@@ -181,7 +243,7 @@ fn check_with<S: passkey_authenticator::CredentialStore<PasskeyItem = passkey_ty
             pin_auth: None,
             pin_protocol: None,
         };
-        let res = block_on(auth.make_credential(req));
+        let res = run_held(auth.make_credential(req), acquire.as_ref())?;
         let refused_expected = rk && c.cap == Disc::OnlyNonDiscoverable;
         let creds = store.creds();
         match res {
@@ -233,43 +295,54 @@ pub fn all_configs() -> Vec<Cfg> {
             for require in [false, true] {
                 for cp in 0..3u8 {
                     for prf in [false, true] {
-                        v.push(Cfg { cap, client: Some((rkreq, require, cp, true)), ctap_rk: None, prf, cap_after_prompt: None, wrap: 0, uv_cap: 0 });
+                        v.push(Cfg { cap, client: Some((rkreq, require, cp, true)), ctap_rk: None, prf, cap_after_prompt: None, wrap: 0, uv_cap: 0, contended: false });
                     }
                 }
             }
         }
         // no authenticatorSelection at all
         for cp in 0..3u8 {
-            v.push(Cfg { cap, client: Some((0, false, cp, false)), ctap_rk: None, prf: false, cap_after_prompt: None, wrap: 0, uv_cap: 0 });
-            v.push(Cfg { cap, client: Some((0, false, cp, false)), ctap_rk: None, prf: true, cap_after_prompt: None, wrap: 0, uv_cap: 0 });
+            v.push(Cfg { cap, client: Some((0, false, cp, false)), ctap_rk: None, prf: false, cap_after_prompt: None, wrap: 0, uv_cap: 0, contended: false });
+            v.push(Cfg { cap, client: Some((0, false, cp, false)), ctap_rk: None, prf: true, cap_after_prompt: None, wrap: 0, uv_cap: 0, contended: false });
         }
         for rk in [false, true] {
-            v.push(Cfg { cap, client: None, ctap_rk: Some(rk), prf: false, cap_after_prompt: None, wrap: 0, uv_cap: 0 });
+            v.push(Cfg { cap, client: None, ctap_rk: Some(rk), prf: false, cap_after_prompt: None, wrap: 0, uv_cap: 0, contended: false });
         }
         // the store handed over inside each lock wrapper, and authenticators whose user verification is not configured / absent
         for rkreq in 0..4u8 {
             for require in [false, true] {
                 for wrap in 1..5u8 {
-                    v.push(Cfg { cap, client: Some((rkreq, require, 2, true)), ctap_rk: None, prf: false, cap_after_prompt: None, wrap, uv_cap: 0 });
+                    v.push(Cfg { cap, client: Some((rkreq, require, 2, true)), ctap_rk: None, prf: false, cap_after_prompt: None, wrap, uv_cap: 0, contended: false });
                 }
                 for uv_cap in 1..3u8 {
-                    v.push(Cfg { cap, client: Some((rkreq, require, 2, true)), ctap_rk: None, prf: false, cap_after_prompt: None, wrap: 0, uv_cap });
+                    v.push(Cfg { cap, client: Some((rkreq, require, 2, true)), ctap_rk: None, prf: false, cap_after_prompt: None, wrap: 0, uv_cap, contended: false });
                 }
             }
         }
         for rk in [false, true] {
             for wrap in 1..5u8 {
-                v.push(Cfg { cap, client: None, ctap_rk: Some(rk), prf: false, cap_after_prompt: None, wrap, uv_cap: 0 });
+                v.push(Cfg { cap, client: None, ctap_rk: Some(rk), prf: false, cap_after_prompt: None, wrap, uv_cap: 0, contended: false });
             }
             for uv_cap in 1..3u8 {
-                v.push(Cfg { cap, client: None, ctap_rk: Some(rk), prf: false, cap_after_prompt: None, wrap: 0, uv_cap });
+                v.push(Cfg { cap, client: None, ctap_rk: Some(rk), prf: false, cap_after_prompt: None, wrap: 0, uv_cap, contended: false });
+            }
+        }
+        // registrations through the Arc wrappers while another task holds the store lock
+        for wrap in [3u8, 4] {
+            for rkreq in 0..4u8 {
+                for require in [false, true] {
+                    v.push(Cfg { cap, client: Some((rkreq, require, 2, true)), ctap_rk: None, prf: false, cap_after_prompt: None, wrap, uv_cap: 0, contended: true });
+                }
+            }
+            for rk in [false, true] {
+                v.push(Cfg { cap, client: None, ctap_rk: Some(rk), prf: false, cap_after_prompt: None, wrap, uv_cap: 0, contended: true });
             }
         }
         // the capability changes while the user is being asked (credProps requested)
         for new_cap in Disc::ALL.into_iter().filter(|n| *n != cap) {
             for rkreq in 0..4u8 {
                 for require in [false, true] {
-                    v.push(Cfg { cap, client: Some((rkreq, require, 2, true)), ctap_rk: None, prf: false, cap_after_prompt: Some(new_cap), wrap: 0, uv_cap: 0 });
+                    v.push(Cfg { cap, client: Some((rkreq, require, 2, true)), ctap_rk: None, prf: false, cap_after_prompt: Some(new_cap), wrap: 0, uv_cap: 0, contended: false });
                 }
             }
         }
@@ -278,7 +351,7 @@ pub fn all_configs() -> Vec<Cfg> {
 }
 
 pub fn run(ctx: &mut Ctx) {
-    ctx.rule = "complete product: store capability (3) x residentKey (absent, discouraged, preferred, required) x requireResidentKey (2) x credProps request (absent, false, true) x PRF requested on a PRF-capable authenticator (2) through Client::register followed by three authentications under userVerification preferred / discouraged / required (counters on, so the record is rewritten in between), plus authenticatorSelection absent (3x3), plus the capability changing to each other value while the user is asked (credProps requested; only credProps-versus-stored and the assertion rules are judged), plus the store handed over inside each of the four lock wrappers, plus authenticators whose user verification is present-but-unconfigured or absent (ceremonies then run with userVerification discouraged), plus capability x CTAP rk (2) through make_credential / get_assertion. Every configuration is distinct and non-trivial.".into();
+    ctx.rule = "complete product: store capability (3) x residentKey (absent, discouraged, preferred, required) x requireResidentKey (2) x credProps request (absent, false, true) x PRF requested on a PRF-capable authenticator (2) through Client::register followed by three authentications under userVerification preferred / discouraged / required (counters on, so the record is rewritten in between), plus authenticatorSelection absent (3x3), plus the capability changing to each other value while the user is asked (credProps requested; only credProps-versus-stored and the assertion rules are judged), plus the store handed over inside each of the four lock wrappers (through the Arc wrappers also while another task holds the lock until the ceremony cannot proceed), a final assertion whose allow list names the new credential and a sibling, plus authenticators whose user verification is present-but-unconfigured or absent (ceremonies then run with userVerification discouraged), plus capability x CTAP rk (2) through make_credential / get_assertion. Every configuration is distinct and non-trivial.".into();
     ctx.exhaustive = Some(true);
     ctx.assumptions = vec!["the capability is set through the reference store's get_info; user validation always consents".into()];
     let all = all_configs();
